@@ -130,10 +130,10 @@ class Uninit:
 
 
 class Closure:
-    __slots__ = ("key", "fields")
+    __slots__ = ("key", "fields", "body")
 
-    def __init__(self, key, captures):
-        self.key, self.fields = key, captures
+    def __init__(self, key, captures, body=None):
+        self.key, self.fields, self.body = key, captures, body
 
     def __repr__(self):
         return "closure@%s" % self.key[9:-1].split("/")[-1]
